@@ -94,6 +94,17 @@ def hazards(model, ci, fn):
                 if key not in seen:
                     seen.add(key)
                     found.append((e, clob))
+        for ln, txt in p.alias_kernel:
+            key = (ln, txt)
+            if key not in seen:
+                seen.add(key)
+
+                class _K(object):
+                    pass
+                e, c = _K(), _K()
+                e.line, e.text, e.via = ln, txt, xn
+                c.line, c.text = ln, 'the same call (kernel output)'
+                found.append((e, c))
         unk = p.unknown
         if unk:
             raise Undecided('buffer handed to an unknown callee: %s'
